@@ -1,6 +1,6 @@
 INIT Init
 NEXT Next
 CONSTANTS TolPer = 50 TolArea = 1000 AreaPerVertex = 1000 TolPerNm = 400
-          TolPosNm = 50 TolRhumbLegNm = 40 EvMaxArc = 120000000 EvMaxLatRhumb = 80000000 EvGeodPerNm = 250 EvRhumbPerNm = 1200
+          RoundoffUlps = 4 TolPosNm = 50 TolRhumbLegNm = 40 EvMaxArc = 120000000 EvMaxLatRhumb = 80000000 EvGeodPerNm = 250 EvRhumbPerNm = 1200
 POSTCONDITION Summary
 CHECK_DEADLOCK FALSE
